@@ -381,49 +381,48 @@ def s_cas(rep, W, rule="S-CAS"):
            "every valuation reaching txn.add_version satisfies latest==NIL or parent==latest; offending: %s"
            % failing_vals(g, (avbb, "T"), accept)[:2], where(body, avbb),
            sample={"valuations_at_append": [G.show_val({k: v for k, v in val.items() if k in (a, b)}) for val in g.vals_at((avbb, "T"))]})
-    # (ii) + (iii): classify non-error exits
+    # (ii) + (iii): classify non-error exits, per valuation, on the value-resolved exit term (helper-computed values and
+    # values bound to locals are substituted, so `if let Some(l) = some_version(latest) {.. ExpectedParentVersion(l)}` reads as latest)
     n_rej = n_ok = 0
     newid = None
     args = pv.arg_terms(avbb)
+    seen_sites = {}
     for site, term in exits(W, body):
         if is_error_exit(term):
             continue
-        mm = m(pat.adt("Result", "Ok", ("0", pat.tup(V("res"), V("urg")))), term)
-        kind = None
-        if mm is not None:
-            r = mm["res"]
-            mr = m(pat.adt("AddVersionResult", "ExpectedParentVersion", ("0", V("p"))), r)
-            mo = m(pat.adt("AddVersionResult", "Ok", ("0", V("v"))), r)
-            if mr is not None:
-                kind = "reject"
-                n_rej += 1
-                rep.ob(rule, (fn, "ii", "reject-guarded#%d" % n_rej), all_vals(g, site, reject),
-                       "the ExpectedParentVersion outcome is returned only when latest!=NIL and parent!=latest; offending: %s"
-                       % failing_vals(g, site, reject)[:2], where(body, line=exit_line(body, site)))
-                rep.ob(rule, (fn, "ii", "reject-payload#%d" % n_rej), mr["p"] == latest,
-                       "ExpectedParentVersion carries %s; must be the client's current latest_version_id" % P.show(mr["p"]),
-                       where(body, line=exit_line(body, site)))
-            elif mo is not None:
-                kind = "ok"
-                n_ok += 1
-                newid = mo["v"]
-                rep.ob(rule, (fn, "iii", "ok-after-append#%d" % n_ok), g.must_precede(avbb, site[0]),
-                       "the accepted outcome is returned only on paths through txn.add_version", where(body, line=exit_line(body, site)))
-                rep.ob(rule, (fn, "iv", "ok-payload#%d" % n_ok), len(args) == 4 and mo["v"] == args[1],
-                       "AddVersionResult::Ok carries %s; must be the id passed to txn.add_version (%s)"
-                       % (P.show(mo["v"]), P.show(args[1]) if len(args) > 1 else "?"), where(body, line=exit_line(body, site)))
-        if kind is None:
-            rep.fail(rule, (fn, "iii", "third-outcome"), "non-error exit that is neither Ok(version) nor ExpectedParentVersion: %s" % P.show(term),
-                     where(body, line=exit_line(body, site)))
-        else:
-            # (iii) an accepting valuation never ends in a reject and vice versa
-            for val in g.vals_at(site):
-                ea = G.ev(accept, val)
-                if kind == "reject" and ea is not False:
-                    pass  # already reported by (ii)
-                if kind == "ok" and ea is not True:
-                    rep.fail(rule, (fn, "iii", "ok-under-reject"), "accepted outcome reachable when the guard does not hold: %s" % G.show_val(val),
-                             where(body, line=exit_line(body, site)))
+        ln = exit_line(body, site)
+        for val in g.vals_at(site):
+            rt = g.resolve_phis(term, val)
+            mm = m(pat.adt("Result", "Ok", ("0", pat.tup(V("res"), V("urg")))), rt)
+            kind = None
+            if mm is not None:
+                r = mm["res"]
+                mr = m(pat.adt("AddVersionResult", "ExpectedParentVersion", ("0", V("p"))), r)
+                mo = m(pat.adt("AddVersionResult", "Ok", ("0", V("v"))), r)
+                if mr is not None:
+                    kind = "reject"
+                    idx = seen_sites.setdefault((site, "reject"), len([k for k in seen_sites if k[1] == "reject"]) + 1)
+                    n_rej = max(n_rej, idx)
+                    rep.ob(rule, (fn, "ii", "reject-guarded#%d" % idx), G.ev(reject, val) is True,
+                           "the ExpectedParentVersion outcome is returned only when latest!=NIL and parent!=latest; offending: %s"
+                           % G.show_val({k: v for k, v in val.items() if k in (a, b)}), where(body, line=ln))
+                    rep.ob(rule, (fn, "ii", "reject-payload#%d" % idx), mr["p"] == latest,
+                           "ExpectedParentVersion carries %s; must be the client's current latest_version_id" % P.show(mr["p"]), where(body, line=ln))
+                elif mo is not None:
+                    kind = "ok"
+                    idx = seen_sites.setdefault((site, "ok"), len([k for k in seen_sites if k[1] == "ok"]) + 1)
+                    n_ok = max(n_ok, idx)
+                    newid = mo["v"]
+                    rep.ob(rule, (fn, "iii", "ok-after-append#%d" % idx), g.must_precede(avbb, site[0]),
+                           "the accepted outcome is returned only on paths through txn.add_version", where(body, line=ln))
+                    rep.ob(rule, (fn, "iv", "ok-payload#%d" % idx), len(args) == 4 and mo["v"] == g.resolve_phis(args[1], val),
+                           "AddVersionResult::Ok carries %s; must be the id passed to txn.add_version (%s)"
+                           % (P.show(mo["v"]), P.show(args[1]) if len(args) > 1 else "?"), where(body, line=ln))
+                    if G.ev(accept, val) is not True:
+                        rep.fail(rule, (fn, "iii", "ok-under-reject"), "accepted outcome reachable when the guard does not hold: %s"
+                                 % G.show_val({k: v for k, v in val.items() if k in (a, b)}), where(body, line=ln))
+            if kind is None:
+                rep.fail(rule, (fn, "iii", "third-outcome"), "non-error exit that is neither Ok(version) nor ExpectedParentVersion: %s" % P.show(rt), where(body, line=ln))
     rep.floor(rule, "add_version reject exits", n_rej, 1, where(body))
     rep.floor(rule, "add_version accept exits", n_ok, 1, where(body))
     # (iv) argument identity
@@ -742,6 +741,22 @@ def s_scope(rep, W, rule="S-SCOPE"):
             rep.ob(rule, ("sql", short_fn(i.owner), v + ":" + st["table"]), okw,
                    "INSERT into %s writes column client_id from self.client_id: %s" % (st["table"], "yes" if okw else "NO"), i.where())
     rep.floor(rule, "scoped DML statements", ndml, 6)
+    # uniqueness constraints are shared state too: a UNIQUE key that does not contain client_id lets one client's rows make
+    # another client's insert fail.  Tabled exception: versions.version_id PRIMARY KEY (ids are server-generated v4 uuids,
+    # never chosen by a client: S-CAS iv + TB-uuid) and clients.client_id itself.
+    for i in inst:
+        st = i.stmt
+        if st is None:
+            continue
+        if st["verb"] == "CREATE INDEX" and st["ddl"].get("unique"):
+            rep.ob(rule, ("sql", "unique-index", st["ddl"]["index"]), "client_id" in st["ddl"]["columns"],
+                   "UNIQUE index %s on %s%s: a uniqueness constraint must include client_id, otherwise rows of different clients collide"
+                   % (st["ddl"]["index"], st["table"], tuple(st["ddl"]["columns"])), i.where())
+        if st["verb"] == "CREATE TABLE":
+            for cdef in st["ddl"]["columns"]:
+                if (cdef["pk"] or cdef["unique"]) and (st["table"], cdef["name"]) not in (("clients", "client_id"), ("versions", "version_id")):
+                    rep.fail(rule, ("sql", "unique-column", "%s.%s" % (st["table"], cdef["name"])),
+                             "column %s.%s is declared %s: a per-column uniqueness constraint is global across clients" % (st["table"], cdef["name"], cdef["decl"]), i.where())
     nacc = 0
     for mth in WD.ALL_METHODS:
         b = W.impl_method("inmemory", mth)
@@ -851,11 +866,14 @@ def exit_kinds(W, body, classify):
 
 def compatible(val, assignment):
     """A partial valuation is compatible with a total assignment of some atoms."""
+    merged = dict(val)
     for atom, v in assignment.items():
         vs = val.get(atom)
         if vs is not None and v not in vs:
             return False
-    return True
+        merged[atom] = frozenset([v])
+    # equalities are not independent propositions: parent == NIL and parent == latest imply latest == NIL
+    return G.eq_consistent(merged)
 
 
 # --------------------------------------------------------------------------- S-READONLY / S-CLASS
@@ -983,6 +1001,10 @@ def c01_key(rep, W, rule="C01.KEY"):
                    "column versions.%s is bound to %s" % (col, P.show(got) if got else e), i.where())
         rep.ob(rule, (fn, "insert", "columns"), set(cols) == set(want_ins), "INSERT lists columns %s" % sorted(cols), i.where(), nontrivial=False)
     for i in upd:
+        wcols = [c for c, _ in i.stmt["where"]]
+        rep.ob(rule, (fn, "update", "unconditional-for-this-client"), i.stmt["where_simple"] and wcols == ["client_id"],
+               "the latest-pointer UPDATE's WHERE clause is %s; it must be exactly `client_id = ?` (a 0-row update would leave the new version unreachable as latest)"
+               % ([(c, str(e)) for c, e in i.stmt["where"]],), i.where())
         cols = dict(i.stmt["writes"])
         e = cols.get("latest_version_id")
         got = i.param(e[1]) if e and e[0] == "param" else None
@@ -1680,6 +1702,10 @@ def c11(rep, W, rule="C11"):
             "versions_since_snapshot": ("field", ("param", 2, ANY), "versions_since"),
             "snapshot": ("param", 3, ANY)}
     for i in mine[:1]:
+        wcols = [c for c, _ in i.stmt["where"]]
+        rep.ob(rule + ".WRITE", (fn, "unconditional-for-this-client"), i.stmt["where_simple"] and wcols == ["client_id"],
+               "the UPDATE's WHERE clause is %s; it must be exactly `client_id = ?`: any further condition can make an accepted snapshot silently "
+               "not stored (0 rows updated is not an error)" % ([(c, str(e)) for c, e in i.stmt["where"]],), i.where())
         cols = dict(i.stmt["writes"])
         for col, p_ in want.items():
             ex_ = cols.get(col)
